@@ -27,10 +27,13 @@ from pyvc.run import run_many  # noqa: E402
 VENV_PY = '/venv/bin/python'
 
 
-def sh(cmd, timeout=3600, env=None):
+def sh(cmd, timeout=1200, env=None):
     e = dict(os.environ)
     e.update(env or {})
-    p = subprocess.run(cmd, capture_output=True, text=True, timeout=timeout, cwd=HERE, env=e)
+    try:
+        p = subprocess.run(cmd, capture_output=True, text=True, timeout=timeout, cwd=HERE, env=e)
+    except subprocess.TimeoutExpired:
+        return 124, '', f'timeout after {timeout}s'
     return p.returncode, p.stdout, p.stderr
 
 
@@ -65,8 +68,11 @@ def main():
             print(f'VIOLATION property={prop} replay={a.replay}')
         sys.exit(1 if rc == 1 else 0)
     t0 = time.time()
-    os.makedirs('evidence', exist_ok=True)
-    os.makedirs('replays', exist_ok=True)
+    OUT = os.environ.get('VERIF_OUT', '')      # scratch output root for seeded-change runs (default: /verif itself)
+    EV = os.path.join(OUT, 'evidence') if OUT else 'evidence'
+    RP = os.path.join(OUT, 'replays') if OUT else 'replays'
+    os.makedirs(EV, exist_ok=True)
+    os.makedirs(RP, exist_ok=True)
     index = S.SourceIndex()
     contracts, specs, rec, mods = load_contracts(index)
     mine = {f: c for f, c in contracts.items() if c.prop == prop}
@@ -124,14 +130,14 @@ def main():
             assumptions.add(x)
         # vacuity: fewer obligations than the ledger recorded for an unchanged function is an engine error
         led = ledger.get(fid)
-        if led and led.get('hash') == r.get('hash') and st == 'OK' and len(obs) < led.get('n', 0):
+        if led and not a.update_ledger and led.get('hash') == r.get('hash') and st == 'OK' and len(obs) < led.get('n', 0):
             engine_errors.append(f'{fid}: {len(obs)} obligations generated, ledger has {led.get("n")} (vacuity guard)')
         if st == 'OK' and not obs:
             engine_errors.append(f'{fid}: zero obligations generated')
         fn_rows.append(row)
 
     # ---------------------------------------------------------------- 2. bounded stand-in (native)
-    standin_out = f'evidence/.standin_{prop}.json'
+    standin_out = f'{EV}/.standin_{prop}.json'
     scope = 'quick' if tier == 'quick' else 'thorough'
     rc, out, err = sh([VENV_PY, '-m', 'standin.run', '--prop', prop, '--scope', scope, '--seed', str(seed), '--out', standin_out])
     sd = load_json(standin_out, None)
@@ -148,7 +154,7 @@ def main():
     prop_mod = f'standin/props/{prop.lower()}.py'
     pl = None
     if os.path.exists(prop_mod):
-        pl_out = f'evidence/.prop_{prop}.json'
+        pl_out = f'{EV}/.prop_{prop}.json'
         rc, out, err = sh([VENV_PY, '-m', f'standin.props.{prop.lower()}', '--scope', scope, '--seed', str(seed), '--out', pl_out],
                           timeout=3000)
         pl = load_json(pl_out, None)
@@ -161,7 +167,7 @@ def main():
 
     # ---------------------------------------------------------------- 3. verdicts
     def write_replay(name, rec):
-        path = f'replays/{name}.json'
+        path = f'{RP}/{name}.json'
         with open(path, 'w') as fh:
             json.dump(rec, fh, indent=1, default=str)
         return path
@@ -275,7 +281,7 @@ def main():
     ev = {'property_id': prop, 'tier': tier, 'seed': seed, 'level': level, 'coverage': cov,
           'assumptions': sorted(assumptions) + (['bounded stand-in results are not proofs'] if st_evals else []),
           'wall_s': round(time.time() - t0, 2), 'violations': len(violations)}
-    with open(f'evidence/{prop}.json', 'w') as fh:
+    with open(f'{EV}/{prop}.json', 'w') as fh:
         json.dump(ev, fh, indent=1, default=str)
 
     if a.update_ledger:
